@@ -1072,6 +1072,54 @@ impl LocalPeerService {
         receiv
     }
 
+    #[cfg(feature = "verif")]
+    pub async fn verif_synchronise_room(
+        room_id: Uid,
+        query_service: &QueryService,
+        peer_service: PeerConnectionService,
+        discret_services: &DiscretServices,
+    ) -> Result<(), crate::Error> {
+        Self::synchronise_room(room_id, query_service, peer_service, discret_services).await
+    }
+
+    #[cfg(feature = "verif")]
+    pub async fn verif_process_local_event(
+        msg: LocalEvent,
+        remote_key: &Arc<Mutex<Vec<u8>>>,
+        event_sender: &Sender<RemoteEvent>,
+        remote_rooms: &HashSet<Uid>,
+        inbound_query_service: &InboundQueryService,
+    ) -> Result<(), crate::Error> {
+        Self::process_local_event(
+            msg,
+            remote_key,
+            event_sender,
+            remote_rooms,
+            inbound_query_service,
+        )
+        .await
+    }
+
+    #[cfg(feature = "verif")]
+    pub async fn verif_process_acquired_room(
+        room: Uid,
+        acquired_lock: Arc<Mutex<HashSet<Uid>>>,
+        query_service: QueryService,
+        lock_service: RoomLockService,
+        peer_service: PeerConnectionService,
+        discret_services: &DiscretServices,
+    ) -> Result<(), crate::Error> {
+        Self::process_acquired_room(
+            room,
+            acquired_lock,
+            query_service,
+            lock_service,
+            peer_service,
+            discret_services,
+        )
+        .await
+    }
+
     ///
     /// cleanup locks that could have been acquired
     /// and ask the peer service to remove this peer
